@@ -3,6 +3,7 @@
    kind "gl"    : Saint Venant-Kirchhoff, integer deformation gradients F0 (beginning of the step) and F1 (end);
    kind "log"   : Hencky, F1 = R.Q.diag(2^k).Q^T from exponents k and integer quaternions q, r; F0 an integer matrix;
    kind "ps"    : Saint Venant-Kirchhoff under the plane stress hypotheses, axial stretch carried by the state variable AxialStrain;
+   kind "pslog" : the same for the Hencky wrapper (AxialStrain = k ln 2);
    kind "cycle" : closed polygon of integer deformation gradients starting and ending at the identity, followed step by
                   step by the incremental form of the law (both wrappers). *)
 EXTENDS StrainMeasure, TLC, Json, IOUtils, SequencesExt
@@ -90,7 +91,12 @@ PSF1s(n) == Base(n) \cup (IF n = 2 THEN {Diag(1, 1, 3), Mul(Sh(2, 1, 1), Diag(2,
 PSn(n) == {[kind |-> "ps", beh |-> "VfHyperPS", n |-> n, hyp |-> PSHyp(n), l2 |-> m[1], mu |-> m[2], F0 |-> RowMajor(ff[1]), F1 |-> RowMajor(ff[2]),
             J |-> Det(ff[2]), J0 |-> Det(ff[1]), a0 |-> Axial(n, ff[1]), a1 |-> Axial(n, ff[2])]
            : m \in Moduli, ff \in PSF0s(n) \X PSF1s(n)}
-PStress == PSn(1) \cup PSn(2)
+\* Hencky wrapper: AxialStrain = k ln 2 at the end of the step (axial stretch 2^k), ln(a0) at the beginning (a0 integer)
+AxialK(n, k) == IF n = 2 THEN k[3] ELSE k[2]
+PSLogn(n) == {[LogCase(n, PSHyp(n), km[1], q, r, km[2], f0) EXCEPT !.kind = "pslog", !.beh = "VfHyperPSLog"] @@ [a0 |-> Axial(n, f0), kax |-> AxialK(n, km[1])]
+              : km \in {x \in KTriples \X Moduli : x[2] \in ModFor(x[1])}, f0 \in PSF0s(n),
+                q \in (IF n = 2 THEN (IF Thorough THEN Q2 ELSE {Identity4, <<2, 0, 0, 1>>}) ELSE {Identity4}), r \in (IF n = 2 THEN R2 ELSE {Identity4})}
+PStress == PSn(1) \cup PSn(2) \cup PSLogn(1) \cup PSLogn(2)
 
 Number(S) == LET s == SetToSeq(S) IN [i \in 1..Len(s) |-> [id |-> i] @@ s[i]]
 All == LET a == Number(GL) b == Number(Log) c == Number(Cyc) d == Number(PStress) IN
@@ -111,6 +117,10 @@ ASSUME \A n \in 1..2 : \A f \in PSF0s(n) \cup PSF1s(n) : Det(f) > 0 /\ HasShape(
 ASSUME \A n \in 1..2 : /\ \E c \in PSn(n) : c.a0 = 1 /\ c.a1 > 1
                        /\ \E c \in PSn(n) : c.a0 > 1 /\ c.a1 = 1
                        /\ \E c \in PSn(n) : c.a0 > 1 /\ c.a1 > 1 /\ c.a0 # c.a1
+ASSUME \A n \in 1..2 : /\ \E c \in PSLogn(n) : c.a0 = 1 /\ c.kax # 0
+                       /\ \E c \in PSLogn(n) : c.a0 > 1 /\ c.kax = 0
+                       /\ \E c \in PSLogn(n) : c.a0 = 2 /\ c.kax \notin {0, 1}
+                       /\ \A c \in PSLogn(n) : IsZRot(c.q) /\ IsZRot(c.r)
 ASSUME \A n \in 2..3 : Rots(n) \subseteq CubeRotations
 ASSUME \A c \in Log : (c.n = 2 => IsZRot(c.q) /\ IsZRot(c.r)) /\ (c.n = 1 => c.q = Identity4 /\ c.r = Identity4)
 ASSUME \A c \in {c \in Log : QuatNorm(c.q) * QuatNorm(c.r) <= 4} : HenckyTheorem(c)
